@@ -383,3 +383,5 @@ func propC01() Prop[C01Case] {
 func TestC01(t *testing.T) { Run(t, propC01()) }
 
 func FuzzGenC01(f *testing.F) { RunFuzz(f, propC01()) }
+
+func TestRaceC01(t *testing.T) { RunConcurrent(t, propC01(), 4) }
